@@ -518,3 +518,42 @@ K('C12', 'schedule-two-sweeps-collect-not-reversed', [(JT, _MP_OLD, "        roo
 K('C11', 'project-returns-view-of-cached-marginal', [(FACT, "        marginalized = self.domain.marginalize(attrs)\n", "        marginalized = self.domain.marginalize(attrs)\n        if len(marginalized) == 0:\n            return self.transpose(attrs)\n")], 'private-counts')
 T('C11', 'project-returns-copy-when-nothing-to-sum', [(FACT, "        marginalized = self.domain.marginalize(attrs)\n", "        marginalized = self.domain.marginalize(attrs)\n        if len(marginalized) == 0:\n            return self.copy().transpose(attrs)\n")])
 T('C11', 'generator-rescales-a-copy', [(GM, "            counts *= total / counts.sum()\n", "            counts = counts * (total / counts.sum())\n")])
+
+# ------------------------------------------------------------------ round 4 rules
+K('C05', 'rho-doubled', [(MECH, "self.rho = 0 if delta == 0 else cdp_rho(epsilon, delta)", "self.rho = 0 if delta == 0 else 2*cdp_rho(epsilon, delta)")], 'rho-binding')
+K('C05', 'rho-swapped-arguments', [(MECH, "self.rho = 0 if delta == 0 else cdp_rho(epsilon, delta)", "self.rho = 0 if delta == 0 else cdp_rho(delta, epsilon)")], 'rho-binding')
+T('C05', 'rho-half-of-budget', [(MECH, "self.rho = 0 if delta == 0 else cdp_rho(epsilon, delta)", "self.rho = 0 if delta == 0 else 0.5*cdp_rho(epsilon, delta)")])
+T('C05', 'rho-statement-form', [(MECH, "        self.rho = 0 if delta == 0 else cdp_rho(epsilon, delta)\n",
+                                 "        if delta == 0:\n            self.rho = 0\n        else:\n            self.rho = cdp_rho(eps=epsilon, delta=delta)\n")])
+K('C05', 'rho-remembered-by-epsilon-only', [
+    (MECH, "def generalized_em_scores(q, ds, t):", "_rho_of = {}\n\ndef remembered_rho(epsilon, delta):\n    if epsilon not in _rho_of:\n        _rho_of[epsilon] = cdp_rho(epsilon, delta)\n    return _rho_of[epsilon]\n\ndef generalized_em_scores(q, ds, t):"),
+    (MECH, "self.rho = 0 if delta == 0 else cdp_rho(epsilon, delta)", "self.rho = 0 if delta == 0 else remembered_rho(epsilon, delta)")], 'memo-key')
+T('C05', 'rho-remembered-by-both', [
+    (MECH, "def generalized_em_scores(q, ds, t):", "_rho_of = {}\n\ndef remembered_rho(epsilon, delta):\n    key = (epsilon, delta)\n    if key not in _rho_of:\n        _rho_of[key] = cdp_rho(epsilon, delta)\n    return _rho_of[key]\n\ndef generalized_em_scores(q, ds, t):"),
+    (MECH, "self.rho = 0 if delta == 0 else cdp_rho(epsilon, delta)", "self.rho = 0 if delta == 0 else remembered_rho(epsilon, delta)")])
+K('C18', 'gbp-schedule-descending-size', [(RG, "for ru in sorted(regions, key=len): #nx", "for ru in sorted(regions, key=len, reverse=True): #nx")], 'gbp-schedule')
+T('C18', 'gbp-schedule-reversed-topological', [(RG, "for ru in sorted(regions, key=len): #nx", "for ru in reversed(list(nx.topological_sort(G))): #nx")])
+K('C18', 'gbp-schedule-reversed-of-reverse', [(RG, "for ru in sorted(regions, key=len): #nx", "for ru in reversed(list(nx.topological_sort(H))): #nx")], 'gbp-schedule')
+K('C16', 'gbp-belief-accumulates-into-potential', [(RG, "            belief = potentials[r] + sum(self.messages[r1,r2] for r1,r2 in self.B[r])\n",
+                                                     "            belief = potentials[r]\n            belief += sum(self.messages[r1,r2] for r1,r2 in self.B[r])\n")], 'oracle-on-copies')
+T('C16', 'gbp-belief-accumulates-into-copy', [(RG, "            belief = potentials[r] + sum(self.messages[r1,r2] for r1,r2 in self.B[r])\n",
+                                                "            belief = potentials[r].copy()\n            belief += sum(self.messages[r1,r2] for r1,r2 in self.B[r])\n")])
+K('C10', 'sub-mask-large-negative', [(F, "np.where(other.values==-np.inf, 0, -other.values)", "np.where(other.values < -1e300, 0, -other.values)")], 'inf-guard')
+T('C10', 'sub-mask-isneginf', [(F, "np.where(other.values==-np.inf, 0, -other.values)", "np.where(np.isneginf(other.values), 0, -other.values)")])
+T('C10', 'sub-mask-named', [(F, "        other = Factor(other.domain, np.where(other.values==-np.inf, 0, -other.values))\n",
+                             "        empty = other.values <= -np.inf\n        other = Factor(other.domain, np.where(empty, 0, -other.values))\n")])
+K('C02', 'pickle-drops-tree-never-rebuilt', [(GM, "        return pickle.load(open(path, 'rb'))\n",
+                                              "        return pickle.load(open(path, 'rb'))\n\n    def __getstate__(self):\n        return { k : v for k, v in self.__dict__.items() if k != 'junction_tree' }\n\n"
+                                              "    def __setstate__(self, state):\n        self.__dict__.update(state)\n")], 'saved-state')
+T('C02', 'pickle-drops-tree-rebuilt-with-order', [(GM, "        return pickle.load(open(path, 'rb'))\n",
+                                                   "        return pickle.load(open(path, 'rb'))\n\n    def __getstate__(self):\n        state = dict(self.__dict__)\n        del state['junction_tree']\n        return state\n\n"
+                                                   "    def __setstate__(self, state):\n        self.__init__(state['domain'], state['cliques'], state['total'], state['elimination_order'])\n        self.__dict__.update(state)\n")])
+K('C02', 'save-pickles-potentials-only', [(GM, "        pickle.dump(model, open(path, 'wb'))", "        pickle.dump(model.potentials, open(path, 'wb'))")], 'saved-state')
+K('C07', 'memoised-positional-key-only', [
+    (CDP, "import math\n", "import math\ndef _remember(f):\n    table={}\n    def wrapper(*args,**kwargs):\n        if args not in table:\n            table[args]=f(*args,**kwargs)\n        return table[args]\n    return wrapper\n"),
+    (CDP, "def cdp_rho(eps,delta):", "@_remember\ndef cdp_rho(eps,delta):")], 'memo-key')
+T('C07', 'memoised-lru-cache', [
+    (CDP, "import math\n", "import math\nimport functools\n"),
+    (CDP, "def cdp_rho(eps,delta):", "@functools.lru_cache(maxsize=None)\ndef cdp_rho(eps,delta):")])
+K('C06', 'mst-rows-from-record-count', [(MST, "    synth = est.synthetic_data()\n", "    synth = est.synthetic_data(rows=data.df.shape[0])\n")], 'public-sink')
+T('C06', 'mst-rows-default-explicit', [(MST, "    synth = est.synthetic_data()\n", "    synth = est.synthetic_data(rows=None)\n")])
